@@ -77,6 +77,19 @@ def top_level_rels(call):
         elif e[0] == "b" and e[1] == "&":
             walk(sp, e[2])
             walk(sp, e[3])
+        elif e[0] == "dyn":
+            # a statement-level reference to a dynamic block: value-range inference reads the block's own
+            # statements as statement-level ones of the call
+            try:
+                objpath = tuple(sp) + tuple(e[1])
+                o = R.get_at(call.root, objpath) if objpath else call.root
+                for b in R.effective_blocks(call.prog, o["cls"]):
+                    if b["n"] == e[2] and b.get("dyn"):
+                        for s2 in b["st"]:
+                            if s2[0] == "e":
+                                walk(objpath, s2[1])
+            except Exception:
+                pass
     for sp, s, org in call.stmts:
         if s[0] == "e":
             walk(sp, s[1])
